@@ -6,6 +6,9 @@ S5.2 collapsing stays inside the parenthesis level: collapse_root_stack_to absor
      sequence (explicit guard, or the precedence comparison is false for RootNode against both sequence operators by the table);
 S5.3 evaluation arms: Tuple -> Value::Tuple(all arguments), Chain -> last argument (error when empty), RootNode -> first | Empty;
 S5.4 Tuple binds tighter than Chain; both are sequences with unbounded arity.
+S5.5 element conservation in the sequence branch (see s55).
+S5.6 every element is evaluated, in order: both recursive evaluators run one forward pass over all children of a node and apply
+     the operator afterwards to all collected values (the C08 evaluator rule, reported here because `;` "evaluates all its elements").
 Not decided: tree equality for all mixed `,`/`;` programs (a run-time property of the root_stack algorithm)."""
 import tables
 from absint import Interp, SYM, C, ADT, OK, ERR, Fork, fmt, is_adt, Budget
@@ -29,6 +32,7 @@ def run(ctx):
     s55(ctx, prog)
     s52(ctx, prog, T)
     s53(ctx, prog)
+    s56(ctx, prog)
     prec = T['precedence']
     ctx.check(prec['Tuple'] > prec['Chain'], 'S5.4', 'Tuple>Chain', 'prec', 'tuple operator binds tighter than the chain operator (%d > %d)' % (prec['Tuple'], prec['Chain']))
     for o in ('Tuple', 'Chain'):
@@ -303,3 +307,32 @@ def s53(ctx, prog):
         and any(is_adt(p[0], 'result::Result', 'Ok') and 'first' in fmt(p[0]) and '$arguments' in fmt(p[0]) for p in ps)
     ctx.check(good, 'S5.3', 'RootNode', 'root-arm', 'RootNode evaluates to its first argument, or Empty when it has none: %s' % rets, span=f.span)
     ctx.sample(dict(rule='S5.3', RootNode=rets))
+
+
+class _Renamed:
+    """reports of a shared rule under this property's rule id"""
+    def __init__(self, ctx, rule):
+        self._ctx, self._rule = ctx, rule
+
+    def __getattr__(self, n):
+        return getattr(self._ctx, n)
+
+    def check(self, cond, rule, *a, **k):
+        return self._ctx.check(cond, self._rule, *a, **k)
+
+    def unrecognised(self, rule, *a, **k):
+        return self._ctx.unrecognised(self._rule, *a, **k)
+
+    def floor(self, rule, *a, **k):
+        return self._ctx.floor(self._rule, *a, **k)
+
+
+def s56(ctx, prog):
+    from rules.c08 import evaluator
+    r = _Renamed(ctx, 'S5.6')
+    for name, opname in (('eval_with_context', 'eval'), ('eval_with_context_mut', 'eval_mut')):
+        f = prog.fn('tree::Node::<NumericTypes>::' + name)
+        if f is None:
+            ctx.unrecognised('S5.6', 'Node::' + name, 'missing', 'evaluator not found')
+            continue
+        evaluator(r, prog, f, name, opname)
